@@ -42,7 +42,9 @@ class Mw:
                  "fault_lis": rng.choice(["", "", "", "", "err", "timeout"]),
                  "fault_named": rng.choice(["", "", "", "err", "timeout"]),
                  "pre_tag": rng.choice([None, None, None, "decided-before"]),
-                 "t0": rng.choice([0, 1000000, 250000000]), "match_method": rng.random() < 0.5}
+                 "t0": rng.choice([0, 1000000, 250000000]), "match_method": rng.random() < 0.5,
+                 # the caller fixed the call's timeout (client.WithRPCTimeout locks it): routing must still decide and pass on
+                 "lock_timeout": rng.random() < 0.25}
             if k < 0.06:
                 c["lds"] = C("RGood", C("Build_listener_pb", "svc-listener", L([]), None))            # empty listener
             elif k < 0.1:
@@ -52,17 +54,17 @@ class Mw:
 
     @staticmethod
     def to_harness(c):
-        return {k: c[k] for k in ("lds", "named", "call", "fault_lis", "fault_named", "pre_tag", "t0", "match_method")}
+        return {k: c[k] for k in ("lds", "named", "call", "fault_lis", "fault_named", "pre_tag", "t0", "match_method", "lock_timeout")}
 
     @staticmethod
     def to_gallina(c, o):
         if o.get("decode_err"):
             z = "(Build_mw_out 0 1 None false 0%Z)"
-            return ('Build_mw_case [] [] GErr [] (Build_call ""%%string ""%%string ""%%string ""%%string ""%%string false []) (Some ""%%string) 0%%Z false %s false ""%%string '
+            return ('Build_mw_case [] [] GErr [] (Build_call ""%%string ""%%string ""%%string ""%%string ""%%string false []) (Some ""%%string) 0%%Z false false %s false ""%%string '
                     '(Build_mw_out 0 0 (Some ""%%string) false 0%%Z) false' % z)
-        return "Build_mw_case %s %s %s %s %s %s %s %s %s %s %s %s %s" % (
+        return "Build_mw_case %s %s %s %s %s %s %s %s %s %s %s %s %s %s" % (
             tj(o["re_valid"]), tj(o["re_match"]), tj(o["lis"]), tj(o["named"]), Route.gcall(c["call"]),
-            gopt(c["pre_tag"], gstr), gZ(c["t0"]), gbool(c["match_method"]),
+            gopt(c["pre_tag"], gstr), gZ(c["t0"]), gbool(c["match_method"]), gbool(bool(c.get("lock_timeout"))),
             gmw(o["mw"]), gbool(bool(o["mw"]["panic"])), gstr(o["key"]), gmw(o["key_eff"]), gbool(bool(o["key_eff"]["panic"])))
 
     @staticmethod
